@@ -286,7 +286,7 @@ func c06Requests(s []uint64, ft uint64) []c06Req {
 
 func c06Worker(tier string, shard, n int) {
 	L, pairL := 3, 2
-	deadline := time.Now().Add(100 * time.Second)
+	deadline := time.Now().Add(300 * time.Second)
 	if tier == "thorough" {
 		L, pairL = 4, 3
 		deadline = time.Now().Add(15 * time.Minute)
@@ -440,7 +440,7 @@ func c06Check(prop, tier string) int {
 		}
 	}
 	// cluster part: log matching between persistent logs in every state of cluster runs
-	clusterPlans := []plan{{"rep3-d2", 20}, {"net3-d2", 25}}
+	clusterPlans := []plan{{"rep3-d2", 40}, {"net3-d2", 30}}
 	if tier == "thorough" {
 		clusterPlans = []plan{{"rep3-d3", 120}, {"net3-d3", 120}, {"crash3-d2", 60}}
 	}
